@@ -1,4 +1,84 @@
-(* C18 — placeholder until the index-safety models land. *)
-From Verif Require Import Lib.Bytes.
-Theorem c18_placeholder : True. Proof. exact I. Qed.
-Print Assumptions c18_placeholder.
+(* C18 — No input from the network can crash the library (partial proof; see props/C18.json).
+   (1) every expression that can panic by itself, as enumerated from the CURRENT source with
+       full type information, has a row in the audited classification table, and no row is
+       stale; (2) no function-typed field of any registered room version is nil;
+   (3) the index-level models of the identifier / header splitting functions never crash,
+       for all byte strings and every behaviour of the abstracted helpers. *)
+From Verif Require Import Lib.Bytes Crash.Outcome Crash.IdModels Crash.IdProofs Crash.Sites
+     Gen.GenSites Gen.GenVersions Crash.SitesSpec.
+From Coq Require Import Arith.
+
+Theorem all_sites_classified : all_sites_classified_b = true.
+Proof. vm_compute. reflexivity. Qed.
+
+Theorem no_stale_classification : no_stale_rows_b = true.
+Proof. vm_compute. reflexivity. Qed.
+
+Theorem every_current_site_has_a_class : forall s, In s gen_sites ->
+  exists r, In r classified_sites /\ site_key_eqb s (key_of r) = true.
+Proof.
+  intros s Hs. pose proof all_sites_classified as H. unfold all_sites_classified_b in H.
+  rewrite forallb_forall in H. specialize (H s Hs). apply existsb_exists in H as (k & Hk & He).
+  unfold classified_keys in Hk. apply in_map_iff in Hk as (r & <- & Hr). eauto.
+Qed.
+
+Theorem version_table_complete : version_table_complete_b = true.
+Proof. vm_compute. reflexivity. Qed.
+
+Theorem no_version_field_is_nil : forall v f, In v gen_versions -> In f gen_version_func_fields ->
+  exists value, In (f, value) (snd v).
+Proof.
+  intros v f Hv Hf. pose proof version_table_complete as H. unfold version_table_complete_b in H.
+  rewrite forallb_forall in H. specialize (H v Hv). unfold version_complete in H.
+  rewrite forallb_forall in H. specialize (H f Hf). apply existsb_exists in H as ([k value] & Hin & He).
+  apply bytes_eqb_eq in He. simpl in He. subst k. eauto.
+Qed.
+
+Theorem split_id_total : forall sigil id, sigil <> colon -> split_id sigil id <> Crash.
+Proof. exact split_id_no_crash. Qed.
+Theorem check_id_total : forall count_runes max id sigil, check_id count_runes max id sigil <> Crash.
+Proof. exact check_id_no_crash. Qed.
+Theorem domain_from_id_total : forall id, domain_from_id id <> Crash.
+Proof. exact domain_from_id_no_crash. Qed.
+Theorem server_name_total : forall parse_port is_ip is_ip4 dns_ok name,
+  parse_server_name parse_port is_ip is_ip4 dns_ok name <> Crash.
+Proof. exact parse_server_name_no_crash. Qed.
+Theorem user_id_total : forall rest_ok id, parse_user_id rest_ok id <> Crash.
+Proof. exact parse_user_id_no_crash. Qed.
+Theorem room_id_total : forall domainless_ok rest_ok id, parse_room_id domainless_ok rest_ok id <> Crash.
+Proof. exact parse_room_id_no_crash. Qed.
+Theorem sender_is_user_id_total : forall s, sender_is_user_id s <> Crash.
+Proof. exact sender_is_user_id_no_crash. Qed.
+Theorem parse_authorization_total : forall header, parse_authorization_pairs header <> Crash.
+Proof. exact parse_authorization_no_crash. Qed.
+Theorem after_prefix_total : forall prefix caveat, after_prefix prefix caveat <> Crash.
+Proof. exact after_prefix_no_crash. Qed.
+Theorem two_parts_total : forall (parts : list bytes), two_parts parts <> Crash.
+Proof. exact (@two_parts_no_crash bytes). Qed.
+Theorem srv_target_total : forall target, target <> [] -> trim_srv_target target <> Crash.
+Proof. exact trim_srv_target_no_crash. Qed.
+
+(* non-vacuity / sharpness: the guards in the statements above are needed *)
+Example split_id_needs_its_guard : split_id colon [colon; 120%N] = Crash.
+Proof. reflexivity. Qed.
+Example srv_target_needs_its_guard : trim_srv_target [] = Crash.
+Proof. reflexivity. Qed.
+Example concrete_split : split_id 64%N (bs "@alice:example.org") = Ret (Some (bs "alice", bs "example.org")).
+Proof. reflexivity. Qed.
+
+Print Assumptions all_sites_classified.
+Print Assumptions no_stale_classification.
+Print Assumptions every_current_site_has_a_class.
+Print Assumptions version_table_complete.
+Print Assumptions no_version_field_is_nil.
+Print Assumptions split_id_total.
+Print Assumptions check_id_total.
+Print Assumptions domain_from_id_total.
+Print Assumptions server_name_total.
+Print Assumptions user_id_total.
+Print Assumptions room_id_total.
+Print Assumptions sender_is_user_id_total.
+Print Assumptions parse_authorization_total.
+Print Assumptions after_prefix_total.
+Print Assumptions two_parts_total.
+Print Assumptions srv_target_total.
